@@ -38,7 +38,7 @@ SHAPES = {
     "LL": (lambda a, b, c: _m(("l", _s(_s(a, b), _s(), _s(c)))), "l", "{l: [[a, b], [], [c]]}"),
     "LTXT": (lambda a, b, c: _m(("l", _s("ab", "b", "abc", "ba", "B", "a b"))), "l", "{l: [ab, b, abc, ba, B, 'a b']} (text elements)"),
     "MTXT": (lambda a, b, c: _m(("h", _m(("ab", "x"), ("b", "ab"), ("ba", "b")))), "h", "{h: {ab: x, b: ab, ba: b}} (text keys and values)"),
-    "LFLT": (lambda a, b, c: _m(("l", _s(1.5, 2, 2.5, -0.5, 1.5))), "l", "{l: [1.5, 2, 2.5, -0.5, 1.5]} (concrete floats: symbolic reals are beyond the engine)"),
+    "LFLT": (lambda a, b, c: _m(("l", _s(1.5, 2, 2.5, -0.5, 1.5, 2.0, 1, 1.0))), "l", "{l: [1.5, 2, 2.5, -0.5, 1.5, 2.0, 1, 1.0]} (concrete floats, incl. integers and the floats equal to them)"),
     "AOHF": (lambda a, b, c: _m(("w", _s(_m(("n", 1), ("p", 1.5)), _m(("n", 2), ("p", 2)), _m(("n", 3), ("p", 2.5))))), "w",
              "{w: [{n: 1, p: 1.5}, {n: 2, p: 2}, {n: 3, p: 2.5}]} (concrete float attributes)"),
     # hashes
